@@ -641,6 +641,16 @@ fn gen_case(batch: &str, _index: u64, seed: u64) -> Case {
     let mut x: Vec<Vec<f64>> = (0..n)
         .map(|_| (0..p).map(|_| if lattice { r.below(5) as f64 } else { r.range(-3.0, 3.0) }).collect())
         .collect();
+    // negative zero is a legal feature value that compares equal to zero
+    if lattice && r.chance(0.1) {
+        for row in x.iter_mut() {
+            for v in row.iter_mut() {
+                if *v == 0.0 && r.chance(0.5) {
+                    *v = -0.0;
+                }
+            }
+        }
+    }
     // sometimes one feature is constant (no split possible on it)
     if p > 1 && r.chance(0.1) {
         let col = r.below(p as u64) as usize;
